@@ -6,6 +6,7 @@ from daemon import rec_hook, CHALLENGE_KV, FILE_KV, POSTOP_KV
 from scenario import simple_cert
 
 NEEDS = ["acmed"]
+LABELS_TPL = ["C10_Template"]
 LABELS = ["C10_Order", "C10_ByType", "C10_OneAtATime", "C10_AbortUnlessAllowed", "C10_Env", "C10_Vars", "C10_FileBracket", "C10_StdinStdout"]
 PROFILES = [["challenge-http-01"], ["challenge-http-01", "challenge-http-01-clean"], ["post-operation"],
             ["file-pre-create", "file-pre-edit", "file-post-create", "file-post-edit"], ["challenge-http-01-clean", "post-operation"],
@@ -31,6 +32,96 @@ CONSTANTS
 POSTCONDITION Accepted
 CHECK_DEADLOCK FALSE
 """
+TPL_MC_CFG = """SPECIFICATION MCSpec
+CONSTANTS
+  Enforce = {"C10_Template"}
+  Deviations = %s
+  MaxLen = %d
+INVARIANTS NoBad Emit
+CHECK_DEADLOCK FALSE
+"""
+TPL_TRACE_CFG = """SPECIFICATION TSpec
+CONSTANTS
+  Enforce = {"C10_Template"}
+  Deviations = {}
+  MaxLen = 1
+POSTCONDITION Accepted
+CHECK_DEADLOCK FALSE
+"""
+DOC_VARS = {"challenge": ["identifier", "identifier_tls_alpn", "challenge", "file_name", "proof", "raw_proof", "is_clean_hook"],
+            "file": ["file_name", "file_directory", "file_path"],
+            "post-operation": ["key_type", "status", "is_success", "certificate_path", "private_key_path"]}
+
+
+def template_family(ctx):
+    """Template.tla enumerates template shapes with their concrete MiniJinja text; every one of them is given to recorder hooks of every
+    event family as an argument (and some as stdin_str); what the hooks received is judged by the specification."""
+    maxlen = 3 if ctx.tier == "thorough" else 2
+    r = tlc.model_check("Template", TPL_MC_CFG % ("{}", maxlen), "C10_tpl_mc", workers=4, timeout=900, required_actions=["MCPick"])
+    if r["violated"]:
+        raise ToolError("Template: the specification disagrees with itself: %s (%s)" % (r["violated"], r["out_path"]))
+    rd = tlc.model_check("Template", TPL_MC_CFG % ('{"VerbatimWithoutExpression"}', 1), "C10_tpl_dev", workers=2, timeout=300)
+    if not rd["violated"]:
+        raise ToolError("Template model sanity: leaving expression-less templates as written is not caught")
+    tpls, seen = [], set()
+    for b in tlc.replays(r["raw"]):
+        if b["src"] not in seen:
+            seen.add(b["src"])
+            tpls.append(b)
+    tkv = {"t%d" % i: b["src"] for i, b in enumerate(tpls)}
+    stdin_tpl = next(i for i, b in enumerate(tpls) if len(b["segs"]) == 2 and b["segs"][0]["k"] == "if" and b["segs"][1]["k"] == "nl") \
+        if any(len(b["segs"]) == 2 for b in tpls) else 0
+    hooks = [rec_hook("tp-chal", ["challenge-http-01", "challenge-http-01-clean"], kv=dict(CHALLENGE_KV, **tkv), stdin_str=tpls[stdin_tpl]["src"]),
+             rec_hook("tp-post", ["post-operation"], kv=dict(POSTOP_KV, **tkv)),
+             rec_hook("tp-file", ["file-pre-create", "file-post-create", "file-pre-edit", "file-post-edit"], kv=dict(FILE_KV, **tkv)),
+             rec_hook("tp-acct", ["file-pre-create", "file-post-create", "file-pre-edit", "file-post-edit"], kv=FILE_KV)]
+    cert = simple_cert("tp", ids=[{"dns": "mx1.tp.example.org", "challenge": "http-01"}])
+    sp = flowcheck.prepare(dict(tag="C10/tpl", certs=[cert], attempts=2, hooks=hooks, cert_hooks=["tp-chal", "tp-post", "tp-file"], account_hooks=["tp-acct"],
+                                meta={"family": "template forms", "templates": len(tpls)}))
+    x = flows.run_many([sp], workers=1)[0]
+    if any(y["hung"] for y in x["runs"]):
+        raise ToolError("daemon hung in the template scenario")
+    lines, cur_type, runs = [], None, 0
+    for e in x["events"]:
+        if e.get("src") == "acmed" and e.get("ev") == "HookCall":
+            cur_type = KEBAB.get(e["type"], e["type"])
+        elif e.get("src") == "hook" and e.get("ev") == "HookRun" and e.get("phase") == "end" and e["hook"] in ("tp-chal", "tp-post", "tp-file"):
+            kv = e.get("kv") or {}
+            fam = "challenge" if (cur_type or "").startswith("challenge-") else "file" if (cur_type or "").startswith("file-") else "post-operation"
+            env = {}
+            for v in DOC_VARS[fam]:
+                val = kv.get(v) or ""
+                env[v] = {"s": val, "t": (val == "true") if v in ("is_clean_hook", "is_success") else val != ""}
+                if v == "identifier":
+                    env["rev:identifier"] = {"s": ".".join(reversed(val.split("."))), "t": True}
+            runs += 1
+            for i, b in enumerate(tpls):
+                if ("t%d" % i) not in kv:
+                    raise ToolError("the recorder did not get template argument t%d in hook %s" % (i, e["hook"]))
+                lines.append({"e": "Render", "env": env, "segs": b["segs"], "out": kv["t%d" % i] or "", "where": "%s arg t%d (%s)" % (e["hook"], i, cur_type)})
+            if e.get("stdin") is not None and e["hook"] == "tp-chal":
+                lines.append({"e": "Render", "env": env, "segs": tpls[stdin_tpl]["segs"], "out": e["stdin"], "where": "%s stdin_str (%s)" % (e["hook"], cur_type)})
+    if runs < 6:
+        raise ToolError("template scenario: only %d hook runs observed" % runs)
+    root = fresh_dir("C10", "tpl_tv")
+    path = os.path.join(root, "templates.ndjson")
+    open(path, "w").write("".join(json.dumps(e) + "\n" for e in lines))
+    tv = tlc.validate_trace("Trace_Template", TPL_TRACE_CFG, "C10_tpl_tv", path, timeout=1800, heap="8g")
+    if tv["hard_errors"] or tv["unmatched"] is not None:
+        raise ToolError("TLC failed on the template trace: %s unmatched=%s (%s)" % (tv["hard_errors"][:2], tv["unmatched"], tv["out_path"]))
+    shown = set()
+    for ln, labs in tv["bad"]:
+        ev = lines[ln - 1]
+        src = "".join("" for _ in [0])
+        key = json.dumps(ev["segs"])
+        if key in shown or len(shown) >= 8:
+            continue
+        shown.add(key)
+        rp = save_replay("C10", "tpl%04d" % ln, {"event.json": ev, "trace.ndjson": os.path.join(x["world"], "trace.ndjson")})
+        ctx.verdict.violation("%s: template %s given as %s arrived as %s" % (labs, json.dumps(next(b["src"] for b in tpls if b["segs"] == ev["segs"])), ev["where"], json.dumps(ev["out"])), rp)
+    return {"templates_in_model": len(tpls), "max_segments": maxlen, "hook_runs": runs, "renderings_judged": len(lines), "tlc_states": r["distinct"]}
+
+
 PATTERNS = [(p, g, c, i) for p in (0, 1) for g in (0, 1) for c in (0, 1) for i in (0, 1)]
 
 
@@ -166,16 +257,19 @@ def run(ctx):
         rp = save_replay("C10", os.path.basename(x["tag"]), {"scenario.json": {k: v for k, v in x["meta"].items() if k not in ("flow", "hook_types")},
                                                             "trace.ndjson": os.path.join(x["world"], "trace.ndjson"), "violated.json": {"labels": labs, "event": ev}})
         ctx.verdict.violation("%s in configuration %s at %s" % (labs, x["meta"]["rc"], json.dumps(short)[:500]), rp)
+    tpl_cov = template_family(ctx)
     calls = sum(1 for e in lines if e["e"] == "Call")
     ends = sum(1 for e in lines if e["e"] == "End")
     aborted = sum(1 for e in lines if e["e"] == "End" and e["exit"] != 0)
     cov = {"states": r["distinct"], "transitions": r["generated"], "traces_validated_against_impl": len(results),
            "samples": [results[0]["meta"]["rc"], results[-1]["meta"]["rc"]], "configurations_in_model": len(confs),
            "configurations_run": len(results), "hook_calls_judged": calls, "hook_runs_judged": ends, "failing_hook_runs": aborted,
-           "env_patterns_per_hook_run": len(PATTERNS), "exhaustive": False,
+           "env_patterns_per_hook_run": len(PATTERNS), "template_forms": tpl_cov, "exhaustive": False,
            "rule": "TLC enumerates hook lists (3 hooks x 7 type profiles (two of them mixing file and certificate event types) x allow_failure x exit code, 2 nested groups, 6 list shapes = 131712 configurations) and checks the "
                    "call semantics on each; a seeded sample (quick 150, thorough 2500) becomes real configurations with the recorder as command; two attempts each "
                    "(first issuance + renewal: create and edit brackets); 16 environment variables per run cover every presence pattern over process/global/"
-                   "certificate/identifier levels"}
+                   "certificate/identifier levels; Template.tla enumerates template shapes (literals, variables, undefined variables, if/else on booleans and undefined, "
+                   "comments, the rev_labels and default filters, a final newline; sequences of up to 2 (quick) or 3 (thorough) segments) and every one is passed to hooks of "
+                   "each event family as an argument"}
     return {"coverage": cov, "assumptions": ["hook names of the account list and of the certificate list are disjoint by construction",
                                             "account hooks are not judged for the environment layering (the manual does not say whether global env applies to them)"]}
